@@ -765,3 +765,81 @@ def r_late_acquire(ctx):
                 else:
                     ctx.violation('ReplLockManager._autoAcquireThread:prolongation-period', th.loc(n), 'prolongation period `%s` is not a fraction <= 1/2 of the auto-unlock time' % unparse(n), instance=inst)
     ctx.expect_min(3)
+
+
+@rule('R-none-is-a-value', 'a container wrapper never decides that a key / element is absent from `lookup(..) is None`: None is a '
+                           'legal stored value, absence is decided with `in` (or by the wrapped container itself)')
+def r_none_is_a_value(ctx):
+    """Contradiction-style rule with an expected count of zero on a correct tree; the positive example that keeps it
+    from passing vacuously is fixtures/noneabsent (checked on every run)."""
+    P = ctx.P
+    n_methods = 0
+
+    def scan(P_, cls_names):
+        found = []
+        count = 0
+        for cn in cls_names:
+            if not P_.has_cls(cn):
+                continue
+            cls = P_.cls(cn)
+            attr, kind = container_kind(P_, cls)
+            if kind not in ('dict', 'list', 'set'):
+                continue
+            for m in P_.methods_of(cls):
+                if m.name == '__init__':
+                    continue
+                count += 1
+                sn = m.self_name
+                # locals bound to a lookup that yields None for a missing key: data.get(k) / data.get(k, None)
+                looked = {}
+                for n in U.walk_no_nested(m.node):
+                    if isinstance(n, ast.Assign) and len(n.targets) == 1 and isinstance(n.targets[0], ast.Name):
+                        v = n.value
+                        if isinstance(v, ast.Call) and isinstance(v.func, ast.Attribute) and v.func.attr == 'get' and P_.self_attr(v.func.value, sn) == attr \
+                                and (len(v.args) == 1 or (len(v.args) == 2 and isinstance(v.args[1], ast.Constant) and v.args[1].value is None)):
+                            looked[n.targets[0].id] = v
+                for n in U.walk_no_nested(m.node):
+                    if not isinstance(n, ast.If):
+                        continue
+                    for t in ast.walk(n.test):
+                        hit = None
+                        if isinstance(t, ast.Compare) and len(t.ops) == 1 and isinstance(t.ops[0], (ast.Is, ast.IsNot, ast.Eq, ast.NotEq)) \
+                                and isinstance(t.comparators[0], ast.Constant) and t.comparators[0].value is None:
+                            l = t.left
+                            if isinstance(l, ast.Name) and l.id in looked:
+                                hit = looked[l.id]
+                            elif isinstance(l, ast.Call) and isinstance(l.func, ast.Attribute) and l.func.attr == 'get' and P_.self_attr(l.func.value, sn) == attr:
+                                hit = l
+                        if hit is None:
+                            continue
+                        # the branch writes the container: the None test stands for "absent"
+                        writes = any((isinstance(x, (ast.Assign, ast.AugAssign, ast.Delete)) and any(
+                            isinstance(tg, ast.Subscript) and P_.self_attr(tg.value, sn) == attr
+                            for tg in (x.targets if isinstance(x, (ast.Assign, ast.Delete)) else [x.target]) for tg in ast.walk(tg)))
+                            or (isinstance(x, ast.Call) and isinstance(x.func, ast.Attribute) and P_.self_attr(x.func.value, sn) == attr and x.func.attr in
+                                ('setdefault', 'update', 'pop', 'add', 'append', 'insert', 'remove', 'discard', 'clear'))
+                            for st_ in (n.body + n.orelse) for x in ast.walk(st_))
+                        if writes:
+                            found.append((m, n, hit))
+        return found, count
+    found, n_methods = scan(P, BATTERIES)
+    for m, n, hit in found:
+        ctx.violation('%s:none-stands-for-absent' % m.qualname, m.loc(n),
+                      '`%s` is tested against None to decide whether to write the container: a stored None is treated as a missing key (the wrapped container '
+                      'would keep it)' % unparse(hit), instance='%s: absence decided by `in`' % m.qualname)
+    ctx.tick(n_methods)
+    if not found:
+        ctx.ok('no wrapper method of %d decides absence by a None lookup result' % n_methods, '', '')
+    # the positive example: the rule must fire on the fixture
+    import os
+    from ..pyir import Program
+    from ..report import VERIF
+    fx = os.path.join(VERIF, 'fixtures', 'noneabsent')
+    try:
+        PF = Program(fx)
+        ff, _ = scan(PF, ['SampleDict'])
+    except AnalysisError:
+        ff = []
+    ctx.require(len(ff) == 1, 'the rule does not fire on its positive example fixtures/noneabsent')
+    ctx.ok('positive example fixtures/noneabsent matched', 'fixtures/noneabsent/pysyncobj/sample.py', 'SampleDict.setdefault', nontrivial=False)
+    ctx.expect_min(2)
